@@ -822,7 +822,13 @@ func R08(group string) Rule {
 				}
 				return walk(v, 0)
 			}
-			c.Check(fromSum(eq.Call.Args[0]) || fromSum(eq.Call.Args[1]), "R08", "finishUpload/md5-of-stored-bytes", eq.Pos(),
+			viaHelpers := func(v ssa.Value) bool {
+				return derivesFromMd5Of(P, v, within, func(o ssa.Value) bool {
+					_, _, isInput := inputOf(fn, o)
+					return isInput
+				}, map[ssa.Value]bool{}, 0)
+			}
+			c.Check(fromSum(eq.Call.Args[0]) || fromSum(eq.Call.Args[1]) || viaHelpers(eq.Call.Args[0]) || viaHelpers(eq.Call.Args[1]), "R08", "finishUpload/md5-of-stored-bytes", eq.Pos(),
 				"the comparison uses md5.Sum of the very byte slice that is stored", "the MD5 comparison is not over the bytes that are stored")
 			// the failing edge returns an error
 			var ifEq *ssa.If
